@@ -761,8 +761,12 @@ class Folder:
             if a == "tolist":
                 return base.tolist
             raise Unfoldable(f"ndarray attr {a}")
-        if isinstance(base, dict) and a in ("items", "values", "keys", "get"):
+        if isinstance(base, dict) and a in ("items", "values", "keys", "get", "update", "setdefault", "pop", "copy"):
             return getattr(base, a)
+        if isinstance(base, set) and a in ("add", "update", "discard", "union", "intersection", "difference", "copy"):
+            return getattr(base, a)
+        if isinstance(base, list) and not isinstance(base, BitArr) and a in ("append", "extend", "insert", "pop", "reverse", "sort"):
+            return getattr(base, a)   # import-time construction of a table in a helper's local list
         if isinstance(base, (list, BitArr)) and a in ("index", "count", "copy", "tolist"):
             if a == "tolist":
                 return lambda: list(base)
